@@ -122,4 +122,30 @@ def readCode (mv : Nat → Published) (i a h : Nat) : Nat :=
   | some (_, c) => c
   | none => h
 
+/-- The multi-version memory after every transaction published (incarnations that were
+    superseded are overwritten in place, so only the final one per transaction matters). -/
+def mvOf (txs : Nat → TxChanges) (skipBasic codeChanged : Nat → Nat → Bool) (j : Nat) : Published :=
+  publishTx (txs j) (skipBasic j) (codeChanged j)
+
+/-- The post-state info of a change, if it has one. -/
+def Change.info? : Change → Option Info
+  | .created info _ => some info
+  | .updated info _ => some info
+  | _ => none
+
+/-- The two comparisons `publish_writes` makes against the account snapshot the transaction read
+    (by validation: the in-order pre-state): nonce and balance unchanged; code set and different. -/
+def skipReal (base : LState) (txs : Nat → TxChanges) (j a : Nat) : Bool :=
+  match (txs j a).info?, (logical base txs j).acct a with
+  | some info, some pre => pre.fields == info.fields
+  | _, _ => false
+
+def codeChangedReal (base : LState) (txs : Nat → TxChanges) (j a : Nat) : Bool :=
+  match (txs j a).info? with
+  | some info =>
+      info.code != 0 && (match (logical base txs j).acct a with
+        | some pre => pre.code != info.code
+        | none => true)
+  | none => false
+
 end Grevm.Repr
